@@ -64,6 +64,30 @@ def build_request(rq):
     return f
 
 
+REFRESHED = {"date", "expires", "last-modified", "set-cookie"}     # what Response.refresh() may rewrite
+RS_DEFAULT = {"st": 200, "hd": [["date", "Mon, 01 Jan 2001 00:00:00 GMT"]], "b": ""}
+EDITS = ["body", "header", "status", "all"]
+
+
+def make_response(i, rs):
+    """the recorded response of recording `i` as the case describes it"""
+    return http.Response.make(rs["st"], b"rec-%d-%s" % (i, rs["b"].encode()), [(k.encode(), v.encode()) for k, v in rs["hd"]])
+
+
+def response_facts(resp, refresh):
+    """status, body and headers of a response; with server_replay_refresh the headers refresh() may rewrite are left out
+    (the only part of a served response that is allowed to differ from the recording)"""
+    return (resp.status_code, bytes(resp.content or b""),
+            tuple((k.lower(), v) for k, v in resp.headers.items(multi=True) if not (refresh and k.lower() in REFRESHED)))
+
+
+def edit_response(resp, how):
+    """what a later addon (modify_body / modify_headers / a script's response hook) does to the response it was handed"""
+    if how in ("body", "all"): resp.content = b"[" + (resp.content or b"") + b"]"
+    if how in ("header", "all"): resp.headers["X-R"] = "edited"; resp.headers.add("X-Edited", "1")
+    if how in ("status", "all"): resp.status_code = 299
+
+
 def spec_key(o, rq, fine=False):
     """The statement's matching key, computed from the description of the request (not from the code):
     method, scheme, path, query parameters not ignored, and unless ignored the host, port, body or the
@@ -162,7 +186,8 @@ class Check(PropertyCheck):
                   "histories run through the real addon and through the model twice — once with the equality classes of the "
                   "real _hash as key function, once with the model's own keyOf on the parsed request parts (the model predicts "
                   "which requests match) — comparing every outcome, count, the buckets in dict order and the recorded list; "
-                  "plus _hash vs keyOf vs the statement's field list on request pairs.")
+                  "plus _hash vs keyOf vs the statement's field list on request pairs. served_response_is_recorded: in every "
+                  "history, including edits of served copies by later addons, what is served is a recording as it was loaded.")
     level_note = ("ORACLE LENIENCIES (all; each tried by known_selftest on hand-written observations at every run): (a) Skip() "
                   "only for cases with dangling indices (after shrinking); (b) `served only if keys equal` uses the statement's "
                   "key, `a matching recording must be served` uses the key refined by the kind of form — requests that differ "
@@ -171,7 +196,10 @@ class Check(PropertyCheck):
                   "with a response => active; nothing pending => inactive) and read from the addon's own count only while nothing "
                   "but response-less recordings is pending (the statement does not say whether skipped response-less recordings "
                   "are discarded); (d) which recording is served and how many remain is never compared with the previous output "
-                  "alone: every pending recording with a response must be indexed, nothing else may be, count() must agree. "
+                  "alone: every pending recording with a response must be indexed, nothing else may be, count() must agree; (e) a "
+                  "served response is compared with the recorded one as the case describes it (status, body, every header) — with "
+                  "server_replay_refresh on, and only then, the headers Response.refresh() may rewrite (date, expires, "
+                  "last-modified, set-cookie) are left out; after every event every recording must still hold its response. "
                   "trusted: SHA-256/repr injectivity on the key lists built by _hash (keyOf is the list before repr); "
                   "urllib.parse.urlparse/parse_qsl, the multipart/urlencoded decoders and Headers.get deliver the request parts "
                   "that keyOf consumes (library, fed as data); `host` of the statement is read as pretty_host (Host header "
@@ -183,7 +211,9 @@ class Check(PropertyCheck):
             "form/header values (so keys collide and near-collide), <=8 recordings (some without response, some non-HTTP), "
             "a history of <=24 load/add/clear/option-change/request events with every combination of matching options, "
             "including option changes that only re-order a list-valued option or add a duplicate name after recordings were "
-            "loaded (12 % of the cases are built around one such change); "
+            "loaded (12 % of the cases are built around one such change); recorded responses vary in status/headers/body, and "
+            "after requests a later addon may edit (body / headers / status) the response a request was given (10 % of the cases "
+            "serve one recording repeatedly — reuse or the same flow loaded twice — with such edits in between, refresh on/off); "
             "pair cases: two request shapes + one option set. distinct = distinct case; non-trivial = at least one request "
             "served or a pair whose keys are equal for one side only.")
     budget = {"quick": 1500, "thorough": 60000}
@@ -239,6 +269,16 @@ class Check(PropertyCheck):
         run([a], [R(0)], [["load", [0]]], ["cnt=2 fm=0,0 rec=0,0"], "not pending / duplicated")
         run([a], [R(0)], [["load", [0]], ["req", 0, cfg], ["req", 0, cfg]],
             [ld, "served:0 cnt=0 fm=- rec=-", "served:0 cnt=0 fm=- rec=-"], "not (any more) among the unserved")
+        # (4) the served response is the recorded one; only what refresh() may rewrite is left out, and only with refresh on
+        run([a], [R(0)], [["load", [0]], ["req", 0, cfg]], [ld, "served:0!altered cnt=0 fm=- rec=-"], "is not the recorded response")
+        case = {"kind": "hist", "reqs": [a], "recs": [R(0)], "opts": [o], "events": [["load", [0]], ["edit", "body", 0]]}
+        assert any("no longer hold" in f for f in self.oracle(case, {"out": [ld, ld], "alt": [[], [0]]})), "selftest: altered recording accepted"
+        r0 = make_response(0, RS_DEFAULT); r1 = make_response(0, RS_DEFAULT); r1.headers["date"] = "Tue, 02 Jan 2001 00:00:00 GMT"
+        assert response_facts(r0, True) == response_facts(r1, True) and response_facts(r0, False) != response_facts(r1, False)
+        r2 = make_response(0, RS_DEFAULT); r2.headers["X-R"] = "edited"
+        assert response_facts(r0, True) != response_facts(r2, True)
+        r3 = make_response(0, RS_DEFAULT); edit_response(r3, "body"); r4 = make_response(0, RS_DEFAULT); edit_response(r4, "status")
+        assert response_facts(r0, True) != response_facts(r3, True) and response_facts(r0, True) != response_facts(r4, True)
 
     # ---------------------------------------------------------------- generation
     M = ["GET", "POST"]; S = ["http", "https"]; H = ["a.com", "b.com"]; P = [80, 8080]; PATH = ["/p", "/q", "/"]
@@ -298,6 +338,11 @@ class Check(PropertyCheck):
         o[f] = l
         return o
 
+    def gen_rs(self, rng):
+        hd = [h for h in ([["X-R", rng.pick(["1", "2"])]], [["date", "Mon, 01 Jan 2001 00:00:00 GMT"]],
+                          [["set-cookie", "a=b; Expires=Mon, 01 Jan 2031 00:00:00 GMT"]], [["X-S", "s"]]) if rng.chance(0.5)]
+        return {"st": rng.pick([200, 200, 201, 404]), "hd": [x for h in hd for x in h], "b": rng.pick(["", "x", "yy"])}
+
     def gen_cfg(self, rng):
         return {"reuse": rng.chance(0.25), "nopop": rng.chance(0.05), "kill_extra": rng.chance(0.1),
                 "extra": rng.pick(["forward", "kill", "204", "400", "404", "500"]), "refresh": rng.chance(0.5)}
@@ -306,7 +351,8 @@ class Check(PropertyCheck):
         base = self.gen_req(rng)
         reqs = [base] + [self.gen_req(rng, base) for _ in range(rng.randint(1, 5))]
         nrec = rng.randint(1, 8)
-        recs = [{"req": rng.randrange(len(reqs)), "resp": not rng.chance(0.2), "http": not rng.chance(0.07)} for _ in range(nrec)]
+        recs = [{"req": rng.randrange(len(reqs)), "resp": not rng.chance(0.2), "http": not rng.chance(0.07), "rs": self.gen_rs(rng)}
+                for _ in range(nrec)]
         opts = [self.gen_opts(rng)]
         ids = list(range(nrec))
         first = [i for i in ids if rng.chance(0.8)]
@@ -314,7 +360,10 @@ class Check(PropertyCheck):
         ev = [["load", first]]
         for _ in range(rng.randint(2, 23)):
             k = rng.weighted([(60, "req"), (15, "conf"), (10, "add"), (5, "load"), (3, "clear")])
-            if k == "req": ev.append(["req", rng.randrange(len(reqs)), self.gen_cfg(rng)])
+            if k == "req":
+                ev.append(["req", rng.randrange(len(reqs)), self.gen_cfg(rng)])
+                # a later addon edits the response this (or an earlier) request was given
+                if rng.chance(0.35): ev.append(["edit", rng.pick(EDITS), rng.weighted([(6, 0), (2, 1), (1, 2)])])
             elif k == "conf":
                 if rng.chance(0.4) or len(opts) > 5:
                     ev.append(["conf", rng.randrange(len(opts))])
@@ -342,12 +391,30 @@ class Check(PropertyCheck):
         ev.append(["conf", 1])
         for _ in range(rng.randint(1, 5)):
             ev.append(["req", c["recs"][rng.pick(ids)]["req"] if rng.chance(0.8) else rng.randrange(len(c["reqs"])), self.gen_cfg(rng)])
+            if rng.chance(0.3): ev.append(["edit", rng.pick(EDITS), 0])
         if rng.chance(0.3): ev += [["conf", 0], ["req", c["recs"][rng.pick(ids)]["req"], self.gen_cfg(rng)]]
         return {**c, "opts": opts, "events": ev}
 
+    def gen_edits(self, rng):
+        """serve the same recording several times (reuse, or the same flow loaded twice) with edits of the served copies in
+        between, refresh on and off"""
+        c = self.gen_hist(rng)
+        ids = [i for i, r in enumerate(c["recs"]) if r["http"] and r["resp"]] or [0]
+        i = rng.pick(ids)
+        c["recs"][i] = dict(c["recs"][i], http=True, resp=True)
+        ev = [["load", [i, i] if rng.chance(0.5) else [i] + [x for x in ids if x != i][:1]]]
+        for _ in range(rng.randint(2, 5)):
+            cfg = dict(self.gen_cfg(rng), reuse=rng.chance(0.6), refresh=rng.chance(0.5))
+            ev.append(["req", c["recs"][i]["req"], cfg])
+            if rng.chance(0.8): ev.append(["edit", rng.pick(EDITS), rng.weighted([(5, 0), (1, 1)])])
+            if rng.chance(0.15): ev.append(["add", [i]])
+        return {**c, "opts": c["opts"][:1], "events": ev}
+
     def generate(self, rng, tier):
         while True:
-            if rng.chance(0.12):
+            if rng.chance(0.1):
+                yield self.gen_edits(rng)
+            elif rng.chance(0.12):
                 yield self.gen_reorder(rng)
             elif rng.chance(0.75):
                 yield self.gen_hist(rng)
@@ -415,11 +482,17 @@ class Check(PropertyCheck):
             if rc["http"]:
                 f = build_request(case["reqs"][rc["req"]])
                 if rc["resp"]:
-                    f.response = http.Response.make(200, b"rec-%d" % i, {"date": "Mon, 01 Jan 2001 00:00:00 GMT"})
+                    f.response = make_response(i, rc.get("rs", RS_DEFAULT))
             else:
                 f = tflow.ttcpflow()
             recs.append(f); ident[id(f)] = i
-        out = []
+        out, alt, asked = [], [], []
+        # the recorded responses as the case describes them (a snapshot that does not depend on any object the addon or a
+        # later addon can touch)
+        snap = {i: response_facts(make_response(i, rc.get("rs", RS_DEFAULT)), False)
+                for i, rc in enumerate(case["recs"]) if rc["http"] and rc["resp"]}
+        snap_r = {i: response_facts(make_response(i, rc.get("rs", RS_DEFAULT)), True)
+                  for i, rc in enumerate(case["recs"]) if rc["http"] and rc["resp"]}
         with addon_context(sp) as tctx:
             table = self._table(case, sp, tctx)
             tctx.options.update(**hashopts(case["opts"][0]))
@@ -430,16 +503,27 @@ class Check(PropertyCheck):
                 elif k == "add": sp.add_flows([recs[i] for i in ev[1]]); out.append(self._dump(sp, ident))
                 elif k == "clear": sp.clear(); out.append(self._dump(sp, ident))
                 elif k == "conf": tctx.options.update(**hashopts(case["opts"][ev[1]])); out.append(self._dump(sp, ident))
+                elif k == "edit":
+                    if len(asked) > ev[2] and asked[-1 - ev[2]].response is not None: edit_response(asked[-1 - ev[2]].response, ev[1])
+                    out.append(self._dump(sp, ident))
                 else:
                     c = ev[2]
                     tctx.options.update(server_replay_reuse=c["reuse"], server_replay_nopop=c["nopop"],
                                         server_replay_kill_extra=c["kill_extra"], server_replay_extra=c["extra"],
                                         server_replay_refresh=c["refresh"])
                     q = build_request(case["reqs"][ev[1]])
-                    sp.request(q)
+                    sp.request(q); asked.append(q)
                     if q.response is not None:
-                        body = q.response.content or b""
-                        res = "served:" + body[4:].decode() if body.startswith(b"rec-") else "status:%d" % q.response.status_code
+                        body = bytes(q.response.content or b"").lstrip(b"[")
+                        if body.startswith(b"rec-"):
+                            i = int(body[4:].split(b"-")[0])
+                            res = f"served:{i}"
+                            # "receives a recorded response": the response as it was recorded (loaded), whatever has been
+                            # done to copies served earlier
+                            want = (snap_r if c["refresh"] else snap).get(i)
+                            if response_facts(q.response, c["refresh"]) != want: res += "!altered"
+                        else:
+                            res = "status:%d" % q.response.status_code
                         if q.is_replay != "response": res += "!not-marked-replay"
                     elif q.error is not None:
                         res = "killed" if q.error.msg == Error.KILLED_MESSAGE else "error"
@@ -448,7 +532,9 @@ class Check(PropertyCheck):
                     out.append(res + " " + self._dump(sp, ident))
               except Exception as e:      # no event of a history may make the addon raise
                 out.append("exc:" + type(e).__name__); break
-        return {"out": out, "table": table}
+              # serving (and what happens to served copies) never changes a recording
+              alt.append([i for i, f in enumerate(recs) if i in snap and response_facts(f.response, False) != snap[i]])
+        return {"out": out, "table": table, "alt": alt}
 
     # ---------------------------------------------------------------- the property as a predicate
     def oracle(self, case, obs):
@@ -475,7 +561,11 @@ class Check(PropertyCheck):
             cnt = int(d["cnt"])
             ms = sorted(x for b in d["fm"].split(";") for x in b.split(",") if x != "-") if d["fm"] != "-" else []
             k = ev[0]
-            if k in ("load", "add", "clear"):
+            if n < len(obs.get("alt", [])) and obs["alt"][n]:
+                fails.append(f"event {n} ({k}): recordings {obs['alt'][n]} no longer hold the response that was loaded")
+            if k == "edit":
+                pass
+            elif k in ("load", "add", "clear"):
                 if k != "add": pending = []
                 if k != "clear": pending += [i for i in ev[1] if recs[i]["http"]]
             elif k == "conf":
@@ -492,7 +582,8 @@ class Check(PropertyCheck):
                 cand = [i for i in pending if recs[i]["resp"] and spec_key(o, reqs[recs[i]["req"]], True) == kqf]
                 if res.startswith("served:"):
                     i = int(res[7:].split("!")[0])
-                    if "!" in res: fails.append(f"event {n}: response served without is_replay")
+                    if "!altered" in res: fails.append(f"event {n}: the response served for recording {i} is not the recorded response")
+                    if "!not-marked" in res: fails.append(f"event {n}: response served without is_replay")
                     # served only if keys equal; at most once without reuse; recording order; reuse serves the first
                     if spec_key(o, reqs[recs[i]["req"]]) != kq:
                         fails.append(f"event {n}: request {ev[1]} was served recording {i} whose matching key differs")
@@ -543,6 +634,7 @@ class Check(PropertyCheck):
                 k = ev[0]
                 if k in ("load", "add"): out.append(f"{pre}{k} {rl(ev[1])}")
                 elif k == "clear": out.append(pre + "clear")
+                elif k == "edit": out.append(pre + "edit")
                 elif k == "conf": out.append(f"{pre}conf {ev[1]}")
                 else:
                     c = ev[2]
@@ -582,7 +674,8 @@ class Check(PropertyCheck):
         if case["kind"] == "pair": return ["pair:eq" if obs["eq"] else "pair:ne"]
         out = []
         for ev, l in zip(case["events"], obs["out"]):
-            if ev[0] == "req":
+            if ev[0] == "edit": out.append("ev:edit:" + ev[1])
+            elif ev[0] == "req":
                 c = ev[2]
                 out.append(("req:reuse:" if c["reuse"] or c["nopop"] else "req:") + l.split(" ")[0].split(":")[0])
             else:
